@@ -201,3 +201,51 @@ def plain_shared_lib(name, source, extra_key=''):
               os.path.join(d, 'lib%s.so' % name)], what='test library compile')
 
     return _atomic_dir(cache_dir('lib_' + name, key), builder)
+
+
+EMBED_DIR = os.path.join(VERIF, 'sim', 'c', 'embed')
+
+_EMBED_GEN = r'''
+import sys
+sys.path.insert(0, %(src)r)
+sys.path.insert(0, %(bdir)r)
+import cffi
+out = %(out)r
+ffi = cffi.FFI()
+ffi.embedding_api("int f(int x, int y); typedef struct { long a; long b; } pair_t; pair_t g(int x);")
+ffi.embedding_init_code("INIT_A = 1")
+ffi.set_source("libA", "typedef struct { long a; long b; } pair_t;\nint A_start(void) { return cffi_start_python(); }")
+ffi.emit_c_code(out + "/libA.c")
+ffi = cffi.FFI()
+ffi.embedding_api("long h(long x);")
+ffi.embedding_init_code("INIT_B = 1")
+ffi.set_source("libB", "int B_start(void) { return cffi_start_python(); }")
+ffi.emit_c_code(out + "/libB.c")
+'''
+
+
+def embed_sim():
+    """Engine C executable: real generated embedding modules + stub CPython +
+    coroutine scheduler.  Returns the path of the executable."""
+    files = [os.path.join(EMBED_DIR, f) for f in ('c28sim.c', 'seams.h', 'shadow/assert.h')]
+    key = _sha_files(py_sources() + files, 'embed-v1')
+    bdir = backend(True)
+
+    def builder(d):
+        gen = os.path.join(d, 'gen.py')
+        with open(gen, 'w') as f:
+            f.write(_EMBED_GEN % dict(src=os.path.join(REPO, 'src'), bdir=bdir, out=d))
+        _run([sys.executable, gen], what='embedding module generation')
+        objs = []
+        for lib in ('libA', 'libB'):
+            o = os.path.join(d, lib + '.o')
+            _run(['gcc', '-g', '-O1', '-w', '-c', '-DWITH_THREAD=1',
+                  '-I', os.path.join(EMBED_DIR, 'shadow'), '-I', PYINC,
+                  '-I', os.path.join(REPO, 'src', 'cffi'),
+                  '-include', os.path.join(EMBED_DIR, 'seams.h'),
+                  os.path.join(d, lib + '.c'), '-o', o], what='compile generated %s.c' % lib)
+            objs.append(o)
+        _run(['gcc', '-g', '-O1', '-w', '-I', PYINC, os.path.join(EMBED_DIR, 'c28sim.c')] + objs +
+             ['-o', os.path.join(d, 'c28sim')], what='link c28sim')
+
+    return os.path.join(_atomic_dir(cache_dir('embed', key), builder), 'c28sim')
